@@ -420,7 +420,8 @@ pub mod implementations {
         let var = ctx.pop();
 
         let ret = if let Some(primitive) = var {
-            ReturnValue::Value(primitive)
+            // return the value itself, not a view into the container / field it was read from
+            ReturnValue::Value(primitive.move_out_of_heap_primitive()?)
         } else {
             ReturnValue::NoValue
         };
